@@ -57,6 +57,14 @@ type FuncContract struct {
 	Where    string
 	Assumes  []Clause // extern: assume-only facts (same as ensures)
 	Old      []OldDecl
+	Sets     []OldDecl // ghost assignments at exit: NAME := expr over the final state
+	Labels   []LabelDecl
+	Preserves []*Expr // with `modifies *`: these locations keep their values
+}
+
+// LabelDecl names the state right after the (first) call of Callee: `label P after call <callee>`.
+type LabelDecl struct {
+	Name, Callee string
 }
 
 type OldDecl struct {
@@ -197,17 +205,7 @@ func (C *Contracts) loadContractFile(path string, defaultPkg string) error {
 				continue
 			}
 			fc := &FuncContract{Kind: word, Pkg: pkg, Loops: map[int]*LoopSpec{}, Where: where(L.line), NoPanic: word == "func"}
-			if m := headerSigRe.FindStringSubmatch(rest); m != nil && word != "func" {
-				fc.Key = m[1]
-				fc.Params = splitList(m[2])
-				fc.Results = splitList(m[3])
-			} else if m != nil && word == "func" && !strings.HasPrefix(rest, "(") {
-				fc.Key = m[1]
-				fc.Params = splitList(m[2])
-				fc.Results = splitList(m[3])
-			} else {
-				fc.Key = strings.TrimSpace(rest)
-			}
+			fc.Key, fc.Params, fc.Results = parseFuncHeader(rest, word != "func")
 			if word == "func" && !strings.Contains(fc.Key, ".") {
 				fc.Key = pkg + "." + fc.Key
 			} else if word == "func" && strings.HasPrefix(fc.Key, "(") {
@@ -282,6 +280,14 @@ func (C *Contracts) loadContractFile(path string, defaultPkg string) error {
 				}
 				cur.Modifies = append(cur.Modifies, e)
 			}
+		case "preserves":
+			for _, m := range splitTop(rest) {
+				e, err := parseExpr(m)
+				if err != nil {
+					return fmt.Errorf("%s: %v", where(L.line), err)
+				}
+				cur.Preserves = append(cur.Preserves, e)
+			}
 		case "old":
 			// old NAME := expr  (named entry-state snapshot value usable in ensures / invariants)
 			i := strings.Index(rest, ":=")
@@ -293,6 +299,22 @@ func (C *Contracts) loadContractFile(path string, defaultPkg string) error {
 				return fmt.Errorf("%s: %v", where(L.line), err)
 			}
 			cur.Old = append(cur.Old, OldDecl{strings.TrimSpace(rest[:i]), e})
+		case "label":
+			parts := strings.Fields(rest)
+			if len(parts) != 4 || parts[1] != "after" || parts[2] != "call" {
+				return fmt.Errorf("%s: label NAME after call <callee>", where(L.line))
+			}
+			cur.Labels = append(cur.Labels, LabelDecl{parts[0], parts[3]})
+		case "sets":
+			i := strings.Index(rest, ":=")
+			if i < 0 {
+				return fmt.Errorf("%s: sets NAME := expr", where(L.line))
+			}
+			e, err := parseExpr(strings.TrimSpace(rest[i+2:]))
+			if err != nil {
+				return fmt.Errorf("%s: %v", where(L.line), err)
+			}
+			cur.Sets = append(cur.Sets, OldDecl{strings.TrimSpace(rest[:i]), e})
 		case "loop":
 			nstr, r2 := splitWord(rest)
 			n, err := strconv.Atoi(nstr)
@@ -532,4 +554,81 @@ func splitTop(s string) []string {
 	}
 	out = append(out, s[start:])
 	return out
+}
+
+
+// lookupFunc finds the contract for a key: exact match first, then glob patterns (keys containing '*').
+func (C *Contracts) lookupFunc(key string) *FuncContract {
+	if fc, ok := C.Funcs[key]; ok {
+		return fc
+	}
+	for k, fc := range C.Funcs {
+		if strings.Contains(k, "*") && k != key {
+			if globKey(k, key) {
+				return fc
+			}
+		}
+	}
+	return nil
+}
+
+// globKey matches pattern with '*' wildcards that are not the pointer-receiver star "(*T)".
+func globKey(pat, key string) bool {
+	// protect "(*" sequences
+	p := strings.ReplaceAll(pat, "(*", "(\x00")
+	parts := strings.Split(p, "*")
+	for i := range parts {
+		parts[i] = strings.ReplaceAll(parts[i], "(\x00", "(*")
+	}
+	if len(parts) == 1 {
+		return pat == key
+	}
+	if !strings.HasPrefix(key, parts[0]) {
+		return false
+	}
+	rest := key[len(parts[0]):]
+	for i := 1; i < len(parts)-1; i++ {
+		j := strings.Index(rest, parts[i])
+		if j < 0 {
+			return false
+		}
+		rest = rest[j+len(parts[i]):]
+	}
+	return strings.HasSuffix(rest, parts[len(parts)-1])
+}
+
+
+// parseFuncHeader splits "KEY(params) (results)" where KEY may itself contain "(*T)".
+// For `func` blocks (sigExpected=false) a bare key without a parameter list is the norm.
+func parseFuncHeader(rest string, sigExpected bool) (string, []string, []string) {
+	rest = strings.TrimSpace(rest)
+	var results []string
+	if strings.HasSuffix(rest, ")") {
+		// optional results group: preceded by ") ("
+		if i := strings.LastIndex(rest, ") ("); i >= 0 {
+			results = splitList(rest[i+3 : len(rest)-1])
+			rest = rest[:i+1]
+		}
+	}
+	if strings.HasSuffix(rest, ")") {
+		// last parenthesised group = params, unless it is the receiver "(*T)" / "(T)" of a bare key
+		depth := 0
+		for i := len(rest) - 1; i >= 0; i-- {
+			switch rest[i] {
+			case ')':
+				depth++
+			case '(':
+				depth--
+				if depth == 0 {
+					key := rest[:i]
+					if key == "" || strings.HasSuffix(key, ".") {
+						// receiver group of a bare key like "(*T).M" cannot end the string; treat as no params
+						return rest, nil, results
+					}
+					return key, splitList(rest[i+1 : len(rest)-1]), results
+				}
+			}
+		}
+	}
+	return rest, nil, results
 }
